@@ -19,7 +19,7 @@
     the extracted model and the implementation, both profiles). *)
 From Coq Require Import NArith List Bool String Ascii.
 From SasLexer Require Import Gen.TokenType Gen.ErrorKind Gen.Channel Model.Base Model.Helpers Model.Numeric
-     Model.Core Model.Lexer3 Spec.RefLex Proofs.RefLexProofs Proofs.OcBase Proofs.OcWhole Proofs.OcAll.
+     Model.Core Model.Lexer3 Spec.RefLex Proofs.RefLexProofs Proofs.OcBase Proofs.OcWhole Proofs.OcAll Proofs.MacroFree.
 Import ListNotations.
 Open Scope N_scope.
 
@@ -64,10 +64,7 @@ Definition agrees (msep : bool) (src : list char) : Prop :=
 Definition C11_statement : Prop := forall msep src, macro_free (body_of src) = true -> agrees msep src.
 
 Theorem C11_lexer_is_reference : C11_statement.
-Proof.
-  intros msep src H. pose proof (lex_is_reflex_macro_free msep src H) as G. unfold agrees. cbv zeta in G |- *.
-  destruct (reflex src) as [[T E] lit]. destruct G as (G1 & G2 & G3 & G4 & G5 & _). auto.
-Qed.
+Proof. exact mf_C11_lexer_is_reference. Qed.
 Print Assumptions C11_lexer_is_reference.
 
 (** the premise is satisfiable, by texts with both kinds of quoted literals, comments and a datalines block *)
